@@ -250,7 +250,12 @@ impl VM {
             match self.next() {
                 OpCode::Const => {
                     let idx = self.read_u16();
-                    let value = constants[idx as usize];
+                    let mut value = constants[idx as usize];
+                    // Strings can be modified in place (`s[0] = "x"`), so every evaluation of a
+                    // string literal yields a fresh copy instead of the one shared constant.
+                    if value.tag() == Type::String {
+                        value = Object::string(value.as_str(), gc);
+                    }
                     self.push(value);
                 }
                 OpCode::SetGlobal => {
